@@ -8,7 +8,6 @@ NOT_APPLICABLE = {
            'claimed as C03, the decoder step as C02, the VLQ layer as C11.',
     'C09': 'rewrite is string-keyed FxHashMap interning plus prefix stripping over string pools; two symbolic-key inserts do not '
            'finish in 25 min (hashbrown SIMD group model), and with concrete keys nothing is left for the solver to decide.',
-    'C12': 'pending: header-machine harnesses not yet registered',
     'C13': 'Interning through FxHashMap<Arc<str>,u32>::entry and format!-based source-root joining over call histories on '
            'string pools: hash maps with symbolic keys and std::fmt are outside reach; nothing numeric remains.',
     'C17': 'Needs a symbolic-offset substring through the identifier scanner for every token of the backwards walk; four '
